@@ -9,7 +9,17 @@ func injectUndef(n *ANode, r *Rng, left *int, depth int) {
 	if *left > 0 && r.Chance(35) {
 		*left--
 		var v any
-		switch r.Intn(4) {
+		switch r.Intn(9) {
+		case 4:
+			v = nil // a null value: the property is still undefined
+		case 5:
+			v = []any{}
+		case 6:
+			v = OObj{}
+		case 7:
+			v = []any{nil}
+		case 8:
+			v = r.Bool()
 		case 0:
 			v = "some text"
 		case 1:
